@@ -283,6 +283,7 @@ var checks = []Check{
 		Rule:        "states = canonical dumps of the real host.Set (three maps, cache, per-object flag/latch) reached by operation sequences; every state non-trivial (differs from all others); schedules = distinct choice sequences",
 		Assumptions: engineAssumptions,
 		Jobs: []Job{
+			{Pkg: "proc/tcp", Scenarios: []string{"C15/tcp-dials"}, Shards: 16, QuickS: 90, ThoroughS: 240},
 			{Pkg: "host", Scenarios: []string{"C15/history"}, Shards: 1, QuickS: 60, ThoroughS: 240},
 			{Pkg: "proc/internal/lb", Scenarios: []string{"C06/random-leastconn"}, Shards: 1, QuickS: 60, ThoroughS: 240},
 			{Pkg: "host", Scenarios: []string{"C15/concurrent"}, Shards: 8, QuickS: 60, ThoroughS: 240},
